@@ -1,6 +1,6 @@
 SPECIFICATION Spec
 CONSTANTS
-  Deep = FALSE
-  Mode = "mutants"
+  Deep = TRUE
+  Mode = "trees"
 INVARIANTS EncodingOK ParseTotal FixedPoint
 CHECK_DEADLOCK FALSE
